@@ -79,13 +79,15 @@ func c04Fragments(r *Rng) []string {
 		return []string{"mintInit", "depositExpiryTipped"}
 	case 1:
 		return []string{"mintInit", "depositPair"}
+	case 2:
+		return []string{"mintInit", "deposit2", "deposit3"} // tipped deposits, claimed by a stranger or by their own recipient
 	}
 	return []string{"mintInit"}
 }
 
 // c14Fragments: the three well-formed deposits plus two of the hostile ones, chosen per case
 func c14Fragments(r *Rng) []string {
-	hostile := []string{"depositTipAboveAmount", "depositTipEqualsAmount", "depositBadRecipient", "depositForeignPrefix", "depositSubUnit", "depositHuge", "depositTruncated", "depositZero"}
+	hostile := []string{"depositTipAboveAmount", "depositTipEqualsAmount", "depositBadRecipient", "depositForeignPrefix", "depositSubUnit", "depositHuge", "depositTruncated", "depositZero", "depositModuleRecipient"}
 	i := r.Pick(len(hostile))
 	j := (i + 1 + r.Pick(len(hostile)-1)) % len(hostile)
 	return []string{"deposit1", hostile[i], "deposit2", hostile[j], "deposit3"}
@@ -153,6 +155,8 @@ func init() {
 		p := oracleProfile("c07-rounds")
 		if r.Chance(0.34) {
 			p.Fragments = []string{[]string{"depositExpiry", "depositExpiryTipped"}[r.Pick(2)]} // reports exactly at the end of a 2000-block deposit window
+		} else if r.Chance(0.3) {
+			p.Fragments = []string{"cyclelistMidRound"} // the cycle list is replaced while the scheduled round holds reports
 		}
 		return p
 	},
@@ -183,6 +187,8 @@ func init() {
 					"unjailReporter": 4, "proposeDispute": 3, "vote": 3, "createValidator": 1.5, "unjailVal": 1.5, "govProposal": 1, "govVote": 4, "cancelUnbond": 1.5}}
 			if r.Chance(0.3) {
 				p.Fragments = []string{"switchAfterRebond"} // stake leaves and re-enters the bonded set between a report and a switch
+			} else if r.Chance(0.3) {
+				p.Fragments = []string{"rejail"} // a second, shorter sentence while the first is running
 			}
 			return p
 		},
@@ -219,10 +225,19 @@ func init() {
 			cfg.ValStake = []int64{500, 500, 300, 300, 300, 200, 100, 100, 100, 100, 50, 50}
 		}
 	}
-	Register(&PropDef{ID: "C16", Profile: func(tier string, r *Rng) Profile { return bridgeProfile("c16-valset") }, World: world,
+	Register(&PropDef{ID: "C16", Profile: func(tier string, r *Rng) Profile {
+		p := bridgeProfile("c16-valset")
+		if r.Chance(0.4) {
+			p.Fragments = []string{"exactFivePercent"} // the boundary of "shifted by at least 5 %"
+		}
+		return p
+	}, World: world,
 		Monitors: func(st *Stats) []Monitor { return []Monitor{NewC16Monitor(st)} }, Cases: tierMap(40, 128), Blocks: tierMap(300, 800)})
 	Register(&PropDef{ID: "C17", Profile: func(tier string, r *Rng) Profile { return bridgeProfile("c17-proposals") }, World: world,
 		Monitors: func(st *Stats) []Monitor { return []Monitor{NewC17Monitor(st)} }, Cases: tierMap(32, 96), Blocks: tierMap(250, 600),
+		// what an honest proposer builds from a valid extended commit is accepted by every honest validator: a history
+		// that ends because PrepareProposal failed or ProcessProposal rejected the honest proposal violates C17
+		DeathModules: []string{"prepare", "process"},
 		Opts:   func() AppOpts { return AppOpts{PanicLog: &PanicLog{}} },
 		Setup:  func(c *Chain, st *Stats, r *Rng) { NewProposalLab(st, r, 6).Attach(c) },
 		Finish: func(c *Chain, g *Gen, mons []Monitor) { finalizeUndecodable(c) }})
@@ -248,7 +263,7 @@ func init() {
 		Profile: func(tier string, r *Rng) Profile {
 			return Profile{Name: "c01-ties", MinTx: 4, MaxTx: 10, Hostile: 0.1, VoteFault: 0.04, GapBig: 0.05, Gov: true, Fragments: []string{"modeSpec", "mintInit"},
 				W: map[string]float64{"tipCustom": 10, "submitCustom": 40, "submit": 14, "tip": 6, "proposeDispute": 4, "vote": 8, "addFee": 2, "delegate": 5, "undelegate": 3, "createReporter": 4,
-					"selectReporter": 5, "withdrawTip": 3, "unjailReporter": 4, "govVote": 4, "createValidator": 1}}
+					"selectReporter": 5, "withdrawTip": 3, "unjailReporter": 4, "govVote": 4, "createValidator": 1, "specThenFail": 1.2, "phantom": 1.2}}
 		},
 		World: func(cfg *WorldCfg, r *Rng) {
 			cfg.ValStake = []int64{1000, 1000, 1000, 1000, 1000, 1000} // equal powers: ties
